@@ -55,8 +55,9 @@ let predict (regs : freg list option) (probes : Sx.t list) : Sx.t list =
       let compile _ = None in
       let st = ref rinit and ok = ref true in
       List.iter (fun r ->
-        if !ok then match methods_idx r.fr_method with
-          | [] -> ok := false                        (* unknown HTTP method: the registration panics *)
+        if !ok then match (if (match r.fr_path with c :: _ -> int_of_n c = 47 | [] -> false) then methods_idx r.fr_method else []) with
+          | [] -> ok := false                        (* unknown HTTP method, or a full path that does not begin with '/' (a relative
+                                                        path used outside the slash-terminated group it was written for): the registration panics *)
           | ms -> (match register compile !st ms (route_of_path r.fr_path) with
                    | Some st' ->
                        let rid = Stdlib.List.length (!st).infos in
